@@ -7,7 +7,7 @@ import concurrent.futures as cf
 
 from . import tlc
 
-_C = re.compile(r'<<"CONF", (\d+), "(\w+)", (\d+), (\d+)>>')
+_C = re.compile(r'<<\s*"CONF",\s*(\d+),\s*"(\w+)",\s*(\d+),\s*(\d+)\s*>>')
 
 
 def _root(trace_module, consts):
